@@ -206,6 +206,42 @@ def _docx_with_formulas(roots, seed):
     return ooxml.render_docx({"props": {}, "units": [{"name": None, "blocks": blocks, "notes": None}], "header": None, "footer": None, "comments": []})
 
 
+def _pptx_with_formulas(roots, seed):
+    """One deck: a slide per formula; display formulas keep all their lines in one m:oMathPara (a multi-line display equation)."""
+    from vf.gen import ooxml
+    from vf.gen.tokens import make
+    units = []
+    for i, r in enumerate(roots):
+        lines = r["maths"] if r.get("para") else r["maths"][:1]
+        units.append({"name": None, "notes": None, "blocks": [{"k": "p", "inl": [{"k": "t", "tok": make("B", 9500 + seed * 100 + i), "sty": 0}], "h": None},
+                                                               {"k": "math", "omml": {"para": False, "maths": lines}, "display": bool(r.get("para"))}]})
+    return ooxml.render_pptx({"props": {}, "units": units, "header": None, "footer": None, "comments": []})
+
+
+def judge_embedded_pptx(roots: list) -> list[tuple[str, str]]:
+    """Formulas in PPTX text boxes: every m:oMath (every line of a display equation) is reported once, as the converter renders that element on its own."""
+    import io
+    from sharepoint2text.parsing.extractors.util.omml_to_latex import omml_to_latex
+    from sharepoint2text.parsing.router import get_extractor
+    want = []
+    for r in roots:
+        for L in (r["maths"] if r.get("para") else r["maths"][:1]):
+            try:
+                want.append(omml_to_latex(ET.fromstring(omml.omath_xml(L))))
+            except Exception:  # noqa
+                return []
+    want = sorted(_WS.sub("", w) for w in want if w and w.strip())
+    try:
+        res = list(get_extractor("x.pptx")(io.BytesIO(_pptx_with_formulas(roots, 0)), "x.pptx"))
+    except Exception as e:  # noqa
+        return [("call-site", f"pptx: extraction raised {type(e).__name__}: {e}")]
+    got = sorted(_WS.sub("", f.latex) for s in res[0].slides for f in s.formulas)
+    if got != want:
+        return [("call-site", f"pptx: formulas reported {[g for g in got if g not in want][:3]} are not what the converter gives for the deck's m:oMath elements ({[w for w in want if w not in got][:3]} expected instead); "
+                              f"{len(got)} reported, {len(want)} in the source")]
+    return []
+
+
 def judge_embedded(docs: list[list]) -> list[tuple[str, str]]:
     """docs: several documents (each a list of OMML roots) extracted one after another in this process, earlier results released.
     The formulas the DOCX extractor reports must be what the converter gives for the same element on its own, in source order."""
@@ -255,6 +291,8 @@ def embedded_shard(ctx: Ctx):
 
     def ev(ds):
         fails = in_fresh_fork(judge_embedded, ds)        # each history of documents starts in a process that has extracted nothing yet, so a reported history replays as it stands
+        if not fails:
+            fails = judge_embedded_pptx(ds[0])
         part.case(digest(["embedded", ds]), len(ds) >= 2 and sum(len(d) for d in ds) >= 4, sample={"documents": len(ds), "formulas": [len(d) for d in ds]} if part.evaluations % 23 == 0 else None, leg="embedded")
         return [Violation(c, f"C19:{c}", d, {"kind": "embedded", "docs": ds}) for c, d in fails[:1]]
     hyp_search(ctx, "embedded", docs, ev, ctx.n(64, 800) // ctx.nshards + 1, part)
@@ -281,5 +319,5 @@ def replay(ctx: Ctx, payload: dict):
     ctx.known = []  # replay judges the raw oracle
     if payload.get("kind") == "embedded":
         from vf.props.c08 import in_fresh_fork
-        return [Violation(c, f"C19:{c}", d, payload) for c, d in in_fresh_fork(judge_embedded, payload["docs"])[:1]]
+        return [Violation(c, f"C19:{c}", d, payload) for c, d in (in_fresh_fork(judge_embedded, payload["docs"]) or judge_embedded_pptx(payload["docs"][0]))[:1]]
     return evaluate(ctx, payload["model"])
